@@ -10,7 +10,8 @@ from typing import cast
 import click
 
 from ..convert_dep5 import toml_from_dep5
-from ..global_licensing import ReuseDep5
+from ..exceptions import GlobalLicensingParseError
+from ..global_licensing import ReuseDep5, ReuseTOML
 from ..i18n import _
 from .common import ClickObj
 from .main import main
@@ -42,6 +43,17 @@ def convert_dep5(obj: ClickObj) -> None:
     text = toml_from_dep5(
         cast(ReuseDep5, project.global_licensing).dep5_copyright
     )
+    # .reuse/dep5 is lenient about what a License field holds, REUSE.toml is
+    # not. Do not trade a working file for one that cannot be parsed.
+    try:
+        ReuseTOML.from_toml(text, "REUSE.toml")
+    except GlobalLicensingParseError as error:
+        raise click.UsageError(
+            _(
+                "'.reuse/dep5' cannot be converted, the result would not be a"
+                " valid REUSE.toml: {error}"
+            ).format(error=error)
+        ) from error
     # REUSE.toml is read as UTF-8, whatever the locale says.
     (project.root / "REUSE.toml").write_text(text, encoding="utf-8")
     (project.root / ".reuse/dep5").unlink()
